@@ -303,6 +303,9 @@ pub fn build(spec: &DocSpec) -> Built {
             fonts.push((Bytes(format!("F{}", i + 1).into_bytes()), Val::Ref(*f, 0)));
         }
         let mut xo = vec![(b("Fm1"), Val::Ref(form_id, 0))];
+        if !font_ids.is_empty() {
+            xo.push((b("F1"), Val::Ref(form_id, 0)));
+        }
         for (i, im) in image_ids.iter().enumerate() {
             xo.push((Bytes(format!("Im{}", i + 1).into_bytes()), Val::Ref(*im, 0)));
         }
@@ -344,6 +347,10 @@ pub fn build(spec: &DocSpec) -> Built {
         }
         if p.use_form {
             content.extend_from_slice(b"/Fm1 Do ");
+            if !font_ids.is_empty() {
+                // /Font and /XObject are separate name spaces: the form is also registered as XObject /F1
+                content.extend_from_slice(b"/F1 Do ");
+            }
         }
         content.extend_from_slice(b"/CS1 cs 0.3 scn 10 10 m 100 100 l 50 20 30 40 60 80 c h S Q");
         let mut d = vec![("Type", name("Page")), ("Parent", Val::Ref(parent_of_leaves, 0)), ("Idx", Val::Int(pi as i64))];
@@ -357,6 +364,10 @@ pub fn build(spec: &DocSpec) -> Built {
         }
         if p.rotate % 4 != 0 {
             d.push(("Rotate", Val::Int(90 * (p.rotate % 4) as i64)));
+        }
+        if p.rotate % 7 == 2 {
+            d.push(("CropBox", Val::Array(vec![Val::Int(5), Val::Int(6), Val::Int(300 + pi as i64), Val::Int(400)])));
+            labels.push("page/own-cropbox".into());
         }
         if p.annots % 5 == 4 {
             // an extra page entry that refers to a small private graph with a reference cycle
@@ -412,10 +423,20 @@ pub fn build(spec: &DocSpec) -> Built {
     let kids: Vec<Val> = page_ids.iter().map(|p| Val::Ref(*p, 0)).collect();
     if let Some(inner) = inner_pages {
         objs.push((inner, Body::Plain(Val::dict(vec![("Type", name("Pages")), ("Parent", Val::Ref(root_pages, 0)), ("Kids", Val::Array(kids)), ("Count", Val::Int(page_ids.len() as i64))]))));
-        objs.push((root_pages, Body::Plain(Val::dict(vec![("Type", name("Pages")), ("Kids", Val::Array(vec![Val::Ref(inner, 0)])), ("Count", Val::Int(page_ids.len() as i64)), ("MediaBox", rect(612, 792))]))));
+        let mut rootd = vec![("Type", name("Pages")), ("Kids", Val::Array(vec![Val::Ref(inner, 0)])), ("Count", Val::Int(page_ids.len() as i64)), ("MediaBox", rect(612, 792))];
+        if spec.outlines % 2 == 1 {
+            rootd.push(("CropBox", Val::Array(vec![Val::Int(10), Val::Int(20), Val::Int(310), Val::Int(420)])));
+            labels.push("pages/inherited-cropbox".into());
+        }
+        objs.push((root_pages, Body::Plain(Val::dict(rootd))));
         labels.push("pages/nested".into());
     } else {
-        objs.push((root_pages, Body::Plain(Val::dict(vec![("Type", name("Pages")), ("Kids", Val::Array(kids)), ("Count", Val::Int(page_ids.len() as i64)), ("MediaBox", rect(612, 792))]))));
+        let mut rootd = vec![("Type", name("Pages")), ("Kids", Val::Array(kids)), ("Count", Val::Int(page_ids.len() as i64)), ("MediaBox", rect(612, 792))];
+        if spec.outlines % 2 == 1 {
+            rootd.push(("CropBox", Val::Array(vec![Val::Int(10), Val::Int(20), Val::Int(310), Val::Int(420)])));
+            labels.push("pages/inherited-cropbox".into());
+        }
+        objs.push((root_pages, Body::Plain(Val::dict(rootd))));
     }
 
     // ---- catalog extras
